@@ -1,0 +1,21 @@
+//go:build verif
+
+// Hook for the verification harness (/verif): lets it observe every successful
+// Save(), including the ones made in the middle of a request. Only compiled
+// with the `verif` build tag.
+
+package cache
+
+var verifSavedFn func(path string)
+
+func verifSaved(path string) {
+	if verifSavedFn != nil {
+		verifSavedFn(path)
+	}
+}
+
+// VerifOnSaved installs (or with nil removes) a callback that is invoked with the
+// cache file path after every successful Save().
+func VerifOnSaved(fn func(path string)) {
+	verifSavedFn = fn
+}
